@@ -389,7 +389,7 @@ func propC12(c *Ctx) {
 		if outer, ok := varargValues(sl); ok && len(outer) == 1 {
 			if isl, ok := outer[0].(*ssa.Slice); ok {
 				if inner, ok := varargValues(isl); ok && len(inner) == 1 {
-					if call, ok := inner[0].(*ssa.Call); ok && strings.HasSuffix(calleeName(call), "/eth.EncodeHex") && fieldIsOrLoad(call.Call.Args[0], fSig) {
+					if call, ok := inner[0].(*ssa.Call); ok && strings.HasSuffix(calleeName(call), "/eth.EncodeHex") && (fieldIsOrLoad(call.Call.Args[0], fSig) || isFieldValueOrSlice(call.Call.Args[0], fSig)) {
 						okTopics = true
 					}
 				}
